@@ -1067,7 +1067,7 @@ def main(ctx):
                  must_raise=lambda kind, op: op[0] == "badvec")
 
     # ------------------------------------------------ long arrays through the vectorised wrappers (mc/longarr.py)
-    from mc.longarr import tiled_elementwise, PERIOD
+    from mc.longarr import tiled_elementwise, PERIOD, marks
     LC = {k: Cosmo(**kw) for k, kw in (("flat", dict(omega_m=0.3)), ("open", dict(omega_m=0.3, omega_l=0.6, flat=False, H0=70.0)),
                                        ("closed", dict(omega_m=0.4, omega_l=0.8, flat=False, H0=55.0)))}
 
@@ -1094,4 +1094,4 @@ def main(ctx):
         lspecs["%s.sigmacritinv(zl,zs)" % ck] = (zpair, (lambda z, z2, c=cobj: c.sigmacritinv(z, z2)))
         lspecs["%s.sigmacritinv(0.3,zs)" % ck] = ((lambda: (zbase(),)), (lambda z, c=cobj: c.sigmacritinv(0.3, z)))
         lspecs["%s.sigmacritinv(zl,2)" % ck] = ((lambda: (zbase(),)), (lambda z, c=cobj: c.sigmacritinv(z, 2.0)))
-    tiled_elementwise(ctx, "long-arrays", lspecs, ctx.pick((100000, 1000000), (65536, 100000, 1000000, 1048576, 2000000)))
+    tiled_elementwise(ctx, "long-arrays", lspecs, marks(ctx), small=lambda l: not l.startswith("open."), small_marks=marks(ctx, small=True))
